@@ -58,6 +58,8 @@ REQS = {
     'setActive': ('SetStudyState', {'op': 'setStudyState', 'state': 'ACTIVE'}),
     'createStudyS': ('CreateStudy', {'op': 'createStudy', 'display': 's', 'state': 'ACTIVE'}),
     'createStudyT': ('CreateStudy', {'op': 'createStudy', 'display': 't', 'state': 'ACTIVE'}),
+    'mdMissing': ('UpdateMetadata', {'op': 'updateMetadata', 'us': [{'t': None, 'kv': ['', 'k', 'm']}, {'t': 99, 'kv': ['', 'k', 'm']}]}),
+    'suggestPool': ('SuggestTrials', {'op': 'suggest', 'client': 'w6', 'count': 1, 'alg': S(1, 500)}),
     'earlyStop1': ('CheckTrialEarlyStoppingState', {'op': 'checkEarlyStop', 'id': 1, 'es': {'kind': 'ok', 'decisions': [[1, True]], 'delta': []}}),
 }
 
@@ -117,7 +119,8 @@ def canon(run, before):
 def explore_pair(args):
   """Worker: all interleavings of two requests after a prefix. Returns a summary."""
   from vcheck import sched
-  backend, pname, na, nb, limit = args
+  backend, pname, na, nb, limit = args[:5]
+  fine = len(args) > 5 and args[5]
   prefix = PREFIXES[pname]
   reqs = [REQS[na][1], REQS[nb][1]]
   ser = {}
@@ -132,7 +135,7 @@ def explore_pair(args):
   n = 0
   bad = []
   outcomes = set()
-  for res in sched.explore(backend, prefix, reqs, limit=limit):
+  for res in sched.explore(backend, prefix, reqs, limit=limit, fine=fine):
     n += 1
     co = canon(res, res['before'])
     outcomes.add(co)
@@ -152,7 +155,7 @@ def explore_pair(args):
                     'outcome': co if co == 'DEADLOCK' else json.loads(co),
                     'serial_ab': json.loads(ser[(0, 1)]), 'serial_ba': json.loads(ser[(1, 0)])})
   return {'backend': backend, 'prefix': pname, 'a': na, 'b': nb, 'schedules': n, 'distinct_outcomes': len(outcomes),
-          'bad': bad, 'truncated': n >= limit}
+          'bad': bad, 'truncated': n >= limit, 'fine': fine}
 
 
 def pairs_for(tier, rng):
@@ -162,7 +165,7 @@ def pairs_for(tier, rng):
   for pname in PREFIXES:
     for a, b in allpairs:
       # requests on trial 1/2 need the prefix with those trials
-      needs_trials = any(x in (a, b) for x in ('complete1', 'complete1inf', 'complete2', 'measure1', 'measure1b', 'stop1', 'delete1', 'mdTrial1', 'mdBoth', 'earlyStop1', 'suggestOwn', 'suggestMd'))
+      needs_trials = any(x in (a, b) for x in ('mdMissing', 'suggestPool', 'complete1', 'complete1inf', 'complete2', 'measure1', 'measure1b', 'stop1', 'delete1', 'mdTrial1', 'mdBoth', 'earlyStop1', 'suggestOwn', 'suggestMd'))
       if needs_trials and pname == 'B':
         continue
       tasks.append((pname, a, b))
@@ -184,6 +187,16 @@ def run(c):
   backends = ['ram'] if c.tier == 'quick' else ['ram', 'sqlmem']
   limit = 1200 if c.tier == 'quick' else 12000
   jobs = [(be, p, a, b, limit) for be in backends for (p, a, b) in tasks]
+  # FINE granularity (preemption also right after a datastore method releases the datastore's own lock,
+  # i.e. inside the method) on the SQL datastore, where a method is more than one statement: pairs of a
+  # read-modify-write RPC with an RPC whose datastore call rolls back or commits on the shared connection
+  fine_pairs = [('complete1', 'createStudyT'), ('measure1', 'createStudyT'), ('stop1', 'createStudyT'), ('suggestPool', 'mdMissing'),
+                ('complete1', 'mdMissing'), ('suggestPool', 'createStudyT'), ('mdTrial1', 'createStudyT'), ('createTrial', 'mdMissing'),
+                ('setInactive', 'createStudyT'), ('suggestNew', 'mdMissing')]
+  if c.tier == 'thorough':
+    fine_pairs += [(a, b) for (p, a, b) in tasks if p == 'A' and (a, b) not in fine_pairs and
+                   REQS[a][0] != REQS[b][0]][:60]
+  jobs += [('sqlmem', 'A', a, b, limit, True) for a, b in fine_pairs]
   ctx = multiprocessing.get_context('fork')
   results = []
   with concurrent.futures.ProcessPoolExecutor(max_workers=min(14, os.cpu_count() or 4), mp_context=ctx) as ex:
@@ -193,8 +206,8 @@ def run(c):
   for r in results:
     total += r['schedules']
     ka, kb = REQS[r['a']][0], REQS[r['b']][0]
-    c.count(r['schedules'], ('pair', r['backend'], r['prefix'], r['a'], r['b']) if r['schedules'] > 2 else None,
-            kind='pair:%s|%s' % tuple(sorted((ka, kb))))
+    c.count(r['schedules'], ('pair', r['backend'], r['prefix'], r['a'], r['b'], r.get('fine', False)) if r['schedules'] > 2 else None,
+            kind=('fine-pair:%s|%s' if r.get('fine') else 'pair:%s|%s') % tuple(sorted((ka, kb))))
     c.traces += r['schedules']
     for b in r['bad']:
       key = 'not-serialisable:%s|%s:%s' % (tuple(sorted((ka, kb))) + (b['what'],))
